@@ -159,8 +159,9 @@ Definition ident_after (kws : list (list N)) (t : list N) : after :=
   if list_eqb l KW_ALL then AfterName
   else if existsb (list_eqb l) kws then AfterOther else AfterName.
 
-(* the lexeme that starts with the digit at the head of s *)
-Definition number (s : list N) : option (lexeme * list N) :=
+(* abstract_literal ::= decimal_literal | based_literal, starting with the digit at the head of s;
+   None = a based literal without its closing '#' (':') *)
+Definition abstract_literal (s : list N) : option (lexeme * list N) :=
   let '(i, r) := span int_char s in
   match r with
   | [] => Some (i, r)
@@ -172,16 +173,24 @@ Definition number (s : list N) : option (lexeme * list N) :=
       match based_rest ch r1 with Some (t, r2) => Some (i ++ [ch] ++ t, r2) | None => None end
     else if is_e ch then
       let '(e, r2) := exponent r in Some (i ++ e, r2)
-    else
-      (* bit string literal with a length: integer base_specifier " ... " *)
+    else Some (i, r)
+  end.
+(* the lexeme that starts with a digit: an abstract literal, or
+   bit_string_literal ::= integer base_specifier " ... "   when the abstract literal is an integer *)
+Definition number (s : list N) : option (lexeme * list N) :=
+  match abstract_literal s with
+  | None => None
+  | Some (t, r) =>
+    if forallb int_char t then
       match base_spec_len r with
       | Some n =>
         match quoted_rest 34 (skipn (S n) r) with
-        | Some (body, r2) => Some (i ++ firstn (S n) r ++ body, r2)
+        | Some (body, r2) => Some (t ++ firstn (S n) r ++ body, r2)
         | None => None
         end
-      | None => Some (i, r)
+      | None => Some (t, r)
       end
+    else Some (t, r)
   end.
 
 Definition delim (n : nat) (s : list N) : option (lexeme * list N * after) :=
